@@ -377,7 +377,7 @@ for name, inst, tags, tier in [
     ("mutvecrev_u8_down4_grow_drop", "MutBumpVecRev growth by copy, down, MIN_ALIGN 4, dropped", ["switch"], "thorough"),
     ("mutvecrev_u32_up1_switch_final", "MutBumpVecRev<u32> created in chunk 2", ["switch"], "thorough"),
 ]:
-    A("mutvec", name, ["C15", "C08"], inst, tags=tags, tier=tier, mem_gb=8, bounds=C15B)
+    A("mutvec", name, ["C15", "C08"], inst, tags=tags, tier=tier, mem_gb=(30 if name == "mutvec_u16_up1_grow_final" else 8), timeout_s=(3600 if name == "mutvec_u16_up1_grow_final" else 1800), bounds=C15B)
 
 # arena-backed BumpVec (C06 / C08 / C16 halves)
 for name, props, inst, tags, tier in [
@@ -444,6 +444,8 @@ for _n in ["vec_push_grow_up1_newest", "vec_push_grow_down1_newest", "vec_push_g
 EXPERIMENTAL["step_down1_switch_grow"] = "out of memory (downward grow into a new chunk: overlapping-copy case split on top of the chunk switch)"
 for _n in ["scope_scoped_down1_b1", "scope_checkpoint_down4_b1", "claim_down8_b1", "aligned_16_to_2_down_b1"]:
     EXPERIMENTAL[_n] = "downward chunk switch inside a scope/claim/aligned region: exceeds 16 GB (DESIGN.md 2.5: downward multi-chunk shapes)"
+for _n in ["mutvec_u16_down1_grow_final", "mutvec_u8_up1_grow_drop", "mutvecrev_u16_up1_grow_final", "mutvecrev_u8_down4_grow_drop"]:
+    EXPERIMENTAL[_n] = "growth by copy into a new chunk: exceeds 16 GB (the upward u16 variant passes with 26 GB and stays in the thorough tier)"
 EXPERIMENTAL["pool_overlap_then_reset"] = "out of memory at 17 GB (two arenas + pool.reset walking both)"
 
 
